@@ -253,3 +253,143 @@ Proof.
   split; [vm_compute; reflexivity|].
   cbn [c_payload]. intros H. discriminate H.
 Qed.
+
+(* ---------- exactly 32 MSB-first bits: the undetected patterns are exactly two ---------- *)
+Definition gen_pat1 : list N := [98; 149; 227; 253; 128].   (* 62 95 e3 fd 80, window starts at bit offset 1 *)
+Definition gen_pat2 : list N := [1; 3; 131; 107; 242].      (* 01 03 83 6b f2, window starts at bit offset 7 *)
+(* one of the two patterns at some byte offset, zero elsewhere *)
+Definition is_gen_multiple (E : list N) : Prop :=
+  exists j r pat, (pat = gen_pat1 \/ pat = gen_pat2) /\ E = repeat 0 j ++ pat ++ repeat 0 r.
+
+Definition msb32_check : bool :=
+  forallb (fun h => forallb (fun a =>
+    existsb (fun t =>
+      (N.testbit (Linv_iter 32 (N.of_nat h) mod 256) (N.of_nat (7 - t)) && (t <? a)%nat) ||
+      (N.testbit (N.of_nat h) (N.of_nat (7 - t)) && (a + 32 <=? 32 + t)%nat)) (seq 0 8)
+    || ((h =? 128)%nat && (a =? 1)%nat) || ((h =? 242)%nat && (a =? 7)%nat))
+    (seq 0 8)) (seq 1 255).
+Lemma msb32_check_ok : msb32_check = true.
+Proof. vm_compute. reflexivity. Qed.
+
+Lemma all_zero_repeat (l : list N) : (forall j, nth j l 0 = 0) -> l = repeat 0 (length l).
+Proof.
+  induction l as [|x l IH]; intros H; [reflexivity|]. cbn [length repeat].
+  rewrite (H 0%nat : x = 0). f_equal. apply IH. intros j. exact (H (S j)).
+Qed.
+
+Theorem msb32_core : forall E p, bytes E -> in_window_msb E p 32 -> (1 <= weight (bits_of_bytes E))%nat ->
+  crc_bits 0 (bits_of_bytes E) = 0 -> is_gen_multiple E.
+Proof.
+  induction E as [|b0 E IH]; intros p Hb Hw Hn Hs; [cbn in Hn; lia|].
+  inversion Hb as [|? ? Hb0 HbE]. subst.
+  destruct (le_lt_dec 8 p) as [Hp|Hp].
+  - assert (b0 = 0).
+    { apply byte_no_bits; [exact Hb0|]. intros t Ht.
+      destruct (N.testbit b0 (N.of_nat (7 - t))) eqn:Eb; [|reflexivity].
+      specialize (Hw 0%nat t Ht Eb). lia. }
+    subst b0. change (bits_of_bytes (0 :: E)) with (bits_of_byte 0 ++ bits_of_bytes E) in *.
+    rewrite crc_bits_app, crc_zero_byte, Liter_0 in Hs.
+    rewrite weight_app in Hn. change (weight (bits_of_byte 0)) with 0%nat in Hn.
+    destruct (IH (p - 8)%nat HbE) as (j & r & pat & Hpat & ->); [|exact Hn|exact Hs|].
+    + intros j t Ht Hbit. specialize (Hw (S j) t Ht Hbit). lia.
+    + exists (S j), r, pat. split; [exact Hpat|reflexivity].
+  - destruct E as [|b1 [|b2 [|b3 [|b4 rest]]]];
+      try (exfalso; revert Hs; apply bits_burst32; [apply short_within32; cbn [length]; lia|exact Hn]).
+    assert (Hb' := Hb). unfold bytes in Hb'. rewrite Forall_forall in Hb'.
+    assert (B0 : b0 < 256) by (apply Hb'; cbn; auto).
+    assert (B1 : b1 < 256) by (apply Hb'; cbn; auto).
+    assert (B2 : b2 < 256) by (apply Hb'; cbn; auto).
+    assert (B3 : b3 < 256) by (apply Hb'; cbn; auto).
+    assert (B4 : b4 < 256) by (apply Hb'; cbn; auto 6).
+    assert (Brest : bytes rest).
+    { apply Forall_forall. intros x Hx. apply Hb'. cbn. auto 8. }
+    assert (Zrest : forall j, nth j rest 0 = 0).
+    { intros j. apply byte_no_bits.
+      - destruct (Nat.lt_ge_cases j (length rest)) as [Lj|Lj].
+        + unfold bytes in Brest. rewrite Forall_forall in Brest. apply Brest, nth_In, Lj.
+        + rewrite nth_overflow by exact Lj. reflexivity.
+      - intros t Ht. destruct (N.testbit (nth j rest 0) (N.of_nat (7 - t))) eqn:Eb; [|reflexivity].
+        specialize (Hw (5 + j)%nat t Ht Eb). lia. }
+    set (lo := le_val [b0; b1; b2; b3]).
+    assert (Lo : lo < 2^32).
+    { unfold lo. change (2^32) with (256 ^ lenN [b0; b1; b2; b3]). apply le_val_bound.
+      repeat constructor; assumption. }
+    change (bits_of_bytes (b0 :: b1 :: b2 :: b3 :: b4 :: rest))
+      with (bits_of_bytes [b0; b1; b2; b3] ++ bits_of_byte b4 ++ bits_of_bytes rest) in Hs, Hn.
+    rewrite !crc_bits_app in Hs.
+    rewrite (crc_bits_closed (bits_of_bytes [b0; b1; b2; b3])) in Hs.
+    rewrite bval_bytes in Hs by (repeat constructor; assumption). fold lo in Hs.
+    rewrite N.lxor_0_l in Hs.
+    change (length (bits_of_bytes [b0; b1; b2; b3])) with 32%nat in Hs.
+    rewrite (crc_bits_closed (bits_of_byte b4)) in Hs. rewrite bval_byte in Hs by exact B4.
+    change (length (bits_of_byte b4)) with 8%nat in Hs.
+    rewrite (crc_bits_closed (bits_of_bytes rest)) in Hs. rewrite bval_bytes in Hs by exact Brest.
+    rewrite (le_val_zero rest Zrest), N.lxor_0_r in Hs.
+    assert (S32 : Liter 32 lo < 2^32) by (apply Liter_bound; exact Lo).
+    assert (X : N.lxor (Liter 32 lo) b4 < 2^32).
+    { apply lxor_bound; [exact S32|]. change (2^32) with 4294967296. lia. }
+    apply Liter_zero in Hs; [|apply Liter_bound; exact X].
+    apply Liter_zero in Hs; [|exact X].
+    apply N.lxor_eq in Hs.
+    assert (Elo : lo = Linv_iter 32 b4) by (rewrite <- Hs; symmetry; apply Linv_Liter; exact Lo).
+    assert (E0 : lo mod 256 = b0) by (unfold lo; cbn [le_val]; lia).
+    rewrite (all_zero_repeat rest Zrest).
+    destruct (N.eq_dec b4 0) as [Z4|N4].
+    + exfalso. rewrite Z4 in Elo, Hn. change (Linv_iter 32 0) with 0 in Elo.
+      apply weight_pos_bval in Hn. apply Hn.
+      rewrite !bval_app. rewrite bval_bytes by (repeat constructor; assumption). fold lo. rewrite Elo.
+      rewrite (bval_byte 0) by reflexivity. rewrite (bval_bytes rest) by exact Brest. rewrite (le_val_zero rest Zrest).
+      rewrite ?N.mul_0_r, ?N.add_0_r, ?N.mul_0_r, ?N.add_0_l. reflexivity.
+    + pose proof msb32_check_ok as C. unfold msb32_check in C. rewrite forallb_forall in C.
+      specialize (C (N.to_nat b4)).
+      assert (I4 : In (N.to_nat b4) (seq 1 255)) by (apply in_seq; lia).
+      apply C in I4. rewrite forallb_forall in I4. specialize (I4 p).
+      assert (Ip : In p (seq 0 8)) by (apply in_seq; lia).
+      apply I4 in Ip. rewrite N2Nat.id in Ip.
+      apply orb_true_iff in Ip. destruct Ip as [Ip|Ip]; [apply orb_true_iff in Ip; destruct Ip as [Ip|Ip]|].
+      * exfalso. apply existsb_exists in Ip. destruct Ip as (t & It & Et). apply in_seq in It.
+        rewrite <- Elo, E0 in Et. apply orb_true_iff in Et.
+        destruct Et as [Et|Et]; apply andb_true_iff in Et; destruct Et as [T1 T2].
+        -- apply Nat.ltb_lt in T2. specialize (Hw 0%nat t ltac:(lia) T1). lia.
+        -- apply Nat.leb_le in T2. specialize (Hw 4%nat t ltac:(lia) T1). lia.
+      * apply andb_true_iff in Ip. destruct Ip as [H4 _]. apply Nat.eqb_eq in H4.
+        assert (H128 : b4 = 128) by lia. rewrite H128 in Elo |- *.
+        change (Linv_iter 32 128) with 4259550562 in Elo. unfold lo in Elo. cbn [le_val] in Elo.
+        remember (b1 + 256 * (b2 + 256 * (b3 + 256 * 0))) as X1 eqn:EX1.
+        assert (A0 : b0 = 98 /\ X1 = 16638869) by lia. destruct A0 as [-> ->].
+        remember (b2 + 256 * (b3 + 256 * 0)) as X2 eqn:EX2.
+        assert (A1 : b1 = 149 /\ X2 = 64995) by lia. destruct A1 as [-> ->].
+        assert (A2 : b2 = 227 /\ b3 = 253) by lia. destruct A2 as [-> ->].
+        exists 0%nat, (length rest), gen_pat1. split; [left; reflexivity|reflexivity].
+      * apply andb_true_iff in Ip. destruct Ip as [H4 _]. apply Nat.eqb_eq in H4.
+        assert (H242 : b4 = 242) by lia. rewrite H242 in Elo |- *.
+        change (Linv_iter 32 242) with 1803748097 in Elo. unfold lo in Elo. cbn [le_val] in Elo.
+        remember (b1 + 256 * (b2 + 256 * (b3 + 256 * 0))) as X1 eqn:EX1.
+        assert (A0 : b0 = 1 /\ X1 = 7045891) by lia. destruct A0 as [-> ->].
+        remember (b2 + 256 * (b3 + 256 * 0)) as X2 eqn:EX2.
+        assert (A1 : b1 = 3 /\ X2 = 27523) by lia. destruct A1 as [-> ->].
+        assert (A2 : b2 = 131 /\ b3 = 107) by lia. destruct A2 as [-> ->].
+        exists 0%nat, (length rest), gen_pat2. split; [right; reflexivity|reflexivity].
+Qed.
+
+(* conversely both patterns are multiples of the generator: zero syndrome wherever they sit *)
+Lemma crc_zero_bytes_state r : forall s, crc_bits s (bits_of_bytes (repeat 0 r)) = Liter (8 * r) s.
+Proof.
+  induction r as [|r IH]; intros s; [reflexivity|].
+  change (bits_of_bytes (repeat 0 (S r))) with (bits_of_byte 0 ++ bits_of_bytes (repeat 0 r)).
+  rewrite crc_bits_app, crc_zero_byte, IH. replace (8 * S r)%nat with (8 * r + 8)%nat by lia.
+  rewrite Liter_add. reflexivity.
+Qed.
+Theorem gen_multiple_undetected E : is_gen_multiple E -> crc_bits 0 (bits_of_bytes E) = 0.
+Proof.
+  intros (j & r & pat & Hpat & ->). rewrite !bits_of_bytes_app, !crc_bits_app.
+  rewrite (crc_zero_bytes_state j 0), Liter_0.
+  assert (Z : crc_bits 0 (bits_of_bytes pat) = 0) by (destruct Hpat as [->| ->]; vm_compute; reflexivity).
+  rewrite Z, crc_zero_bytes_state. apply Liter_0.
+Qed.
+
+Theorem msb32_exactly_two E p : bytes E -> in_window_msb E p 32 -> (1 <= weight (bits_of_bytes E))%nat ->
+  (crc_bits 0 (bits_of_bytes E) = 0 <-> is_gen_multiple E).
+Proof.
+  intros Hb Hw Hn. split; [apply (msb32_core E p); assumption|apply gen_multiple_undetected].
+Qed.
